@@ -501,7 +501,7 @@ func c09Gen(rng *rand.Rand, tier string) []Case {
 			}
 			op += " " + hexb(p)
 		}
-		out = append(out, Case{ID: fmt.Sprintf("v%d", c), Ops: []string{op, "inj msg " + hexb(g.message(0)), "alive"}, Nontrivial: true, Tags: []string{"conflict-vote"}})
+		out = append(out, Case{ID: fmt.Sprintf("v%d", c), Ops: []string{"inj slowquery", op, "inj msg " + hexb(g.message(0)), "alive"}, Nontrivial: true, Tags: []string{"conflict-vote"}})
 	}
 	return out
 }
